@@ -1350,6 +1350,31 @@ def schema_contracts(specs):
                            and isinstance(h.body[-1], ast.Raise) and h.body[-1].exc is None)
                     if not ok_:
                         badh.append('%s: %s' % (fname_, ast.unparse(h)[:200]))
+        # C05/C09: every emitted function that receives a scope (`econtext` parameter: render functions,
+        # macro bodies, slot fillers) resolves names through THAT scope -- the lookup helpers `get` /
+        # `getname` it uses are bound from its own econtext, never inherited from the enclosing function
+        # through the Python closure (a filler runs with the macro's copy of the scope, not with the
+        # scope of the template that wrote it)
+        inherited = []
+
+        def own_nodes(fd):
+            stack = list(fd.body)
+            while stack:
+                n_ = stack.pop()
+                yield n_
+                for ch in ast.iter_child_nodes(n_):
+                    if not isinstance(ch, (ast.FunctionDef, ast.Lambda)):
+                        stack.append(ch)
+        for fd in ast.walk(ast.parse(em.source)):
+            if isinstance(fd, ast.FunctionDef) and 'econtext' in [a_.arg for a_ in fd.args.args]:
+                loads = {n_.id for n_ in own_nodes(fd) if isinstance(n_, ast.Name) and isinstance(n_.ctx, ast.Load)}
+                stores = {n_.id for n_ in own_nodes(fd) if isinstance(n_, ast.Name) and isinstance(n_.ctx, ast.Store)}
+                for nm_ in ('get', 'getname'):
+                    if nm_ in loads and nm_ not in stores:
+                        inherited.append('%s reads `%s` without binding it from its own econtext' % (fd.name, nm_))
+        static.append(('%s.scope_helpers_local' % s['id'], not inherited,
+                       'every emitted function with an econtext parameter binds the lookup helpers it uses '
+                       '(get, getname) from that econtext', {'template': s['text'], 'functions': inherited}))
         static.append(('%s.handler.appends_record' % s['id'], not badh,
                        "the handler of every emitted render function appends one record to "
                        "rcontext['__error__'] and re-raises (records are ordered innermost first)",
